@@ -2,6 +2,7 @@
 From Coq Require Import List NArith ZArith.
 From TarsV Require Import Base.Hex Codec.Wire Codec.Skip Codec.Prim Codec.PrimProofs Codec.GenCodec Codec.Corr Codec.GenProofs
   Codec.RoundTrip Codec.RoundTripProofs Codec.PrefixProofs Codec.PrefixGenProofs Codec.RoundTripExamples Codec.CorrT Gen.Schemas.
+From TarsV Require Xlate.ReaderSliceEquiv.
 Import ListNotations.
 Open Scope N_scope.
 
